@@ -85,7 +85,10 @@ class PostgreSQLQueryBuilder(QueryBuilder):
                 self._return_field_str(term)
             elif isinstance(term, ArithmeticExpression):
                 self._return_other(term)
-            elif isinstance(term, AggregateFunction):
+            elif isinstance(term, AggregateFunction) or (
+                isinstance(term, Function) and term.is_aggregate
+            ):
+                # (a row-wise function over an aggregate is an aggregate expression as well)
                 raise QueryException("Aggregate functions are not allowed in returning")
             elif isinstance(term, Function):
                 # a row-wise function is an expression over the written row like any other
